@@ -5,11 +5,17 @@ from vf.runner import load_known
 
 _LISTED = None
 
+def _sp(case):
+    from vf import gen
+    st = case['state']
+    return st.get(gen.bank_key(13, gen.MODE_NAME.get(st['cpsr'] & 31, 'usr')), 0)
+
+
 PRED = {
     'cbz-scale': lambda res, case: res.row == 'CBZ_T1',
     'bfi-source-bits': lambda res, case: res.row in ('BFI_A1', 'BFI_T1'),
     'mrs-app-view': lambda res, case: res.row in ('MRS_A1_app', 'MRS_T1_app') and (case['state']['cpsr'] & 31) != 0b10000,
-    'push-t2-unaligned': lambda res, case: res.row == 'PUSH_T2',
+    'push-t2-unaligned': lambda res, case: res.row == 'PUSH_T2' and _sp(case) & 3 != 0,
 }
 
 
